@@ -163,9 +163,24 @@ let handle (x : sexp) : (string * string) list =
     let base_fids = List.map (fun r -> int_of_n r.rq_fetch) base.reqs in
     let res = ref [] in
     let nt = ref 0 in
+    (* known root causes present in a run (used by tools/props/c07.py to match KNOWN_FINDINGS keys) *)
+    let contains (s : string) (sub : string) =
+      let n = String.length s and m = String.length sub in
+      let rec go i = i + m <= n && (String.sub s i m = sub || go (i + 1)) in go 0 in
+    let causes (r : run) : string list =
+      let kind_is fid k = (List.find (fun f -> int_of_n f.f_id = fid) fetches).f_kind = k in
+      (if List.exists (fun (_, k) -> k = "nan_data") r.faults then ["nan-accepted"] else [])
+      @ (if List.exists (fun (_, k) -> k = "status_with_data") r.faults then ["status-ignored-with-data"] else [])
+      @ (if List.exists (fun (f, k) -> (k = "count_less" || k = "count_more") && kind_is f FEntity) r.faults then ["entity-count-ignored"] else [])
+      @ (if List.exists (fun (rq : request) ->
+             List.exists (fun rep ->
+               contains (string_of_bytes rep) ":null" &&
+               not (List.exists (fun (r0 : request) -> r0.rq_fetch = rq.rq_fetch && List.mem rep r0.rq_reps) base.reqs)) rq.rq_reps) r.reqs
+         then ["nullable-requires-null-sent"] else []) in
     let add i (r : run) s d =
       let fl = String.concat "," (List.map (fun (f, k) -> Printf.sprintf "%d:%s" f k) r.faults) in
-      res := (s, Printf.sprintf "%s run=%d faults=[%s] %s" (List.hd (String.split_on_char ' ' d)) i fl
+      res := (s, Printf.sprintf "%s run=%d faults=[%s] causes=[%s] %s" (List.hd (String.split_on_char ' ' d)) i fl
+                   (if s = "specfail" then String.concat "," (causes r) else "")
                    (String.concat " " (List.tl (String.split_on_char ' ' d)))) :: !res in
     if not (root_wf root) then res := ("error", "generator produced a response plan outside C02 plan_wf") :: !res;
     List.iteri (fun i (r : run) ->
